@@ -218,6 +218,8 @@ def run(ctx: Ctx) -> None:
     N = ctx.n(300, 8000)
     rng = ctx.rng
     for i in range(N):
+        if ctx.out_of_time():
+            break
         prog, ids = gen_program(ctx, rng)
         probs = run_case(ctx, prog, ids)
         nontriv = any(op[0] == "add" for op in prog) and any(op[0] == "herald" for op in prog)
